@@ -17,7 +17,9 @@ pub broadcast axiom fn ax_dv_string(t: String)
 // ":source <t>" (send_msg_display, feed_msg_source)
 pub broadcast axiom fn ax_disp_def<T>(source: Seq<char>, t: T)
     ensures #[trigger] disp::<T>(source, t) == seq![':'] + source + seq![' '] + dv::<T>(t);
-pub broadcast group display_text { ax_dv_ref, ax_dv_str, ax_dv_string, ax_disp_def }
+pub broadcast axiom fn ax_dv_char(c: char)
+    ensures #[trigger] dv::<char>(c) == seq![c];
+pub broadcast group display_text { ax_dv_ref, ax_dv_str, ax_dv_string, ax_dv_char, ax_disp_def }
 // rule R23: format!("p0{}p1", a) with plain placeholders; the concatenations are opaque so that handler bodies carry no sequence arithmetic
 #[verifier::opaque]
 pub open spec fn fmt1_text(p0: Seq<char>, a: Seq<char>, p1: Seq<char>) -> Seq<char> { p0 + a + p1 }
@@ -25,6 +27,14 @@ pub open spec fn fmt1_text(p0: Seq<char>, a: Seq<char>, p1: Seq<char>) -> Seq<ch
 pub open spec fn fmt2_text(p0: Seq<char>, a: Seq<char>, p1: Seq<char>, b: Seq<char>, p2: Seq<char>) -> Seq<char> { p0 + a + p1 + b + p2 }
 #[verifier::opaque]
 pub open spec fn fmt3_text(p0: Seq<char>, a: Seq<char>, p1: Seq<char>, b: Seq<char>, p2: Seq<char>, c: Seq<char>, p3: Seq<char>) -> Seq<char> { p0 + a + p1 + b + p2 + c + p3 }
+#[verifier::opaque]
+pub open spec fn fmt5_text(p0: Seq<char>, a: Seq<char>, p1: Seq<char>, b: Seq<char>, p2: Seq<char>, c: Seq<char>, p3: Seq<char>, d: Seq<char>, p4: Seq<char>, e: Seq<char>, p5: Seq<char>) -> Seq<char> {
+    p0 + a + p1 + b + p2 + c + p3 + d + p4 + e + p5
+}
+#[verifier::external_body]
+pub fn verif_fmt5<A: fmt::Display, B: fmt::Display, C: fmt::Display, D: fmt::Display, E: fmt::Display>(p0: &str, a: &A, p1: &str, b: &B, p2: &str, c: &C, p3: &str, d: &D, p4: &str, e: &E, p5: &str) -> (r: String)
+    ensures r@ == fmt5_text(p0@, dv::<&A>(a), p1@, dv::<&B>(b), p2@, dv::<&C>(c), p3@, dv::<&D>(d), p4@, dv::<&E>(e), p5@)
+{ unimplemented!() }
 #[verifier::external_body]
 pub fn verif_fmt1<A: fmt::Display>(p0: &str, a: &A, p1: &str) -> (r: String)
     ensures r@ == fmt1_text(p0@, dv::<&A>(a), p1@)
